@@ -102,3 +102,11 @@ func DiamConn() interface{}
 // LastAnswer copies the struct carried by the last Diameter answer written by
 // a server handler into dst and reports whether there was one.
 func LastAnswer(dst interface{}) bool
+
+// gin router stub access.
+func GinRoutes() int
+func GinRouteMethod(i int) string
+func GinRoutePath(i int) string
+func GinChainLen(i int) int
+func GinServe(i int, c interface{}) int
+func VerifyCalls() int
